@@ -19,6 +19,7 @@ mod header;
 mod hdrsrc;
 mod history;
 mod histstack;
+mod infoaux;
 mod integrity;
 mod keys;
 mod mem;
@@ -43,6 +44,10 @@ fn main() {
     }
     if args[1] == "c20-child" {
         capi::child_main();
+        return;
+    }
+    if args[1] == "info-aux" {
+        infoaux::main(&args[2..]);
         return;
     }
     if args[1] == "c20r-child" {
